@@ -563,22 +563,28 @@ class Runner(object):
             d = {'action': b['ord'], 'name': b['name'], 'now': now, 'deadline': self.deadline(b['id']),
                  'batch': [[x['ord'], x['name'], x['task'] is not None] for x in due]}
             if b['task'] is None:
+                # regression of DESIGN 9-R (fixed by 2fdf7f9f)
                 self.feat.add('taskless-skipped')
                 self.hit('an expired RUNNING synchronous action execution without a task (ad-hoc action) is '
                          'skipped by the checker and stays RUNNING', {'kind': 'taskless-action-never-expired'}, d)
+            elif b in unknown_def:
+                # the broken action itself: the statement only asks that it does not block the others
+                self.feat.add('broken-action-skipped')
             elif unknown_def:
+                # regression of the poisoned batch (fixed by 2fdf7f9f)
                 self.feat.add('poisoned-batch')
-                if b in unknown_def:
-                    self.hit('an expired action whose definition was deleted is never failed (the pass raises)',
-                             {'kind': 'unknown-definition-poisons-batch', 'victim': 'itself'}, d)
-                else:
-                    self.hit('one broken action (definition deleted) prevents the other expired actions of the '
-                             'batch from being failed: the pass raises InvalidActionException and rolls back',
-                             {'kind': 'unknown-definition-poisons-batch', 'victim': 'others'}, d)
+                self.hit('one broken action (definition deleted) prevents the other expired actions of the '
+                         'batch from being failed: the pass raises InvalidActionException and rolls back',
+                         {'kind': 'unknown-definition-poisons-batch', 'victim': 'others'}, d)
             else:
                 self.hit('RUNNING synchronous action silent since clock %d not failed at clock %d (deadline %d)' % (
                     self.last_hb.get(b['id'], self.created.get(b['id'], 0)), now, self.deadline(b['id'])),
                     {'kind': 'expired-not-failed'}, d)
+        failed = [b for b in due if aa[b['id']]['state'] == 'ERROR' and aa[b['id']]['out'] == HB_MSG]
+        if any(b['task'] is None for b in failed):
+            self.feat.add('taskless-action-expired')
+        if unknown_def and [b for b in failed if b not in unknown_def]:
+            self.feat.add('batch-continues-after-deleted-definition')
         if any(b['task'] is None for b in due) and any(
                 b['task'] is not None and aa[b['id']]['state'] == 'ERROR' for b in due):
             self.feat.add('batch-continues-after-broken')
